@@ -99,13 +99,16 @@ func isPublic(fname string) bool {
 
 func getContextFromFilename(fname string) keystore.KeyContext {
 	if isHistoricalFilename(fname) {
-		fname = filepath.Dir(fname)
+		// rotated keys are kept in "<key file>.old/<timestamp>" and are encrypted
+		// with the same context as "<key file>"
+		fname = strings.TrimSuffix(filepath.Dir(fname), ".old")
 	}
 	if fname == PoisonKeyFilename {
 		return keystore.NewKeyContext(keystore.PurposePoisonRecordKeyPair, []byte(fname))
 	}
 	if fname == getSymmetricKeyName(PoisonKeyFilename) {
-		return keystore.NewKeyContext(keystore.PurposePoisonRecordSymmetricKey, []byte(fname[:len(fname)-len("_sym")]))
+		// the keystore encrypts the poison record symmetric key with its full file name as context
+		return keystore.NewKeyContext(keystore.PurposePoisonRecordSymmetricKey, []byte(fname))
 	}
 	fname = filepath.Base(fname)
 	if strings.HasSuffix(fname, ".old") {
